@@ -220,4 +220,29 @@ example : dtParse [50, 48, 50, 52, 45, 48, 50, 45, 50, 57, 84, 50, 51, 58, 53, 5
   decide
 example : I32 (-2147483648) ∧ ¬ I32 2147483648 := by decide
 
+/-! #### consequence: no two values share a PLAIN text
+
+A text that parses back to its value cannot be the text of a second value, so a path segment, query value or
+header written from one value is never read as another (doubles: modulo the NaN payload, as above). -/
+
+theorem inj_of_roundtrip {α β : Type} (f : α → β) (g : β → Option α) (P : α → Prop)
+    (h : ∀ a, P a → g (f a) = some a) (a b : α) (ha : P a) (hb : P b) (e : f a = f b) : a = b := by
+  have h1 := h a ha
+  rw [e, h b hb] at h1
+  exact (Option.some.inj h1).symm
+
+theorem C12_text_injective (E : FloatExt) (hE : LawfulFloat E) :
+    (∀ v w : Int, I32 v → I32 w → i32Text v = i32Text w → v = w) ∧
+    (∀ d d' : Dbl, dblText E d = dblText E d' → d = d') ∧
+    (∀ a b : List Nat, Bytes a → Bytes b → binText a = binText b → a = b) ∧
+    (∀ u u' : List Nat, u.length = 16 ∧ Bytes u → u'.length = 16 ∧ Bytes u' → uuidText u = uuidText u' → u = u') ∧
+    (∀ c c' : Civil, c.Valid → c'.Valid → dtText c = dtText c' → c = c') :=
+  ⟨inj_of_roundtrip i32Text i32Parse I32 C12_roundtrip_i32,
+   fun d d' => inj_of_roundtrip (dblText E) (dblParse E) (fun _ => True)
+     (fun d _ => C12_roundtrip_double E hE d) d d' trivial trivial,
+   inj_of_roundtrip binText binParse Bytes C12_roundtrip_binary,
+   inj_of_roundtrip uuidText uuidParse (fun u => u.length = 16 ∧ Bytes u)
+     (fun u h => C12_roundtrip_uuid u h.1 h.2),
+   inj_of_roundtrip dtText dtParse Civil.Valid C12_datetime_text_roundtrip⟩
+
 end ConjureVerif.C12
